@@ -19,6 +19,7 @@ PROP = "C16"
 LEVEL = "proof"
 ASSUMPTIONS = [
     "ICT node failures do not affect communication in the implementation (is_connected walks in-service ICT lines only); the property is stated over lines and so is the model",
+    "the timer rule of the automatic loop is a theorem on the model (C16.unreachable_costs_manual_time / reachable_costs_nothing); the model of the automatic loops is compared state by state with the real controllers in the C05 / C06 / C14 checks; sensors and intelligent switches that fail by themselves inside the loop are not modelled (timing oracle of this check only)",
 ]
 F = Fraction
 
